@@ -821,6 +821,8 @@ func (vm *vm) handleThrow(arg interface{}) *Exception {
 		vm.stash = tf.stash
 		vm.privEnv = tf.privEnv
 		_ = vm.restoreStacks(tf.iterLen, tf.refLen)
+		// closing iterators may have run script code that grew (reallocated) the try stack
+		tf = &vm.tryStack[len(vm.tryStack)-1]
 
 		if tf.catchPos == tryPanicMarker {
 			break
